@@ -256,6 +256,7 @@ class RaggedArray(IndexableArray, np.lib.mixins.NDArrayOperatorsMixin):
             -1,
         ), "Reductions on ragged arrays are only supported for the last axis"
 
+        keepdims = kwargs.pop("keepdims", False)
         identity = None if ufunc.identity is None else ufunc.reduce(self.ravel()[:0], **kwargs)
         if self.size == 0:
             result = np.full(len(ra), fill_value=identity)
@@ -274,7 +275,7 @@ class RaggedArray(IndexableArray, np.lib.mixins.NDArrayOperatorsMixin):
         if identity is not None:
             result[ra._shape.lengths == 0] = identity
 
-        return result
+        return result[:, None] if keepdims else result
 
     def _reduce_invertable(self, ufunc, ra, axis, **kwargs):
         if not np.issubdtype(ra.dtype, np.integer):
